@@ -332,7 +332,17 @@ func vfCliContext() *cli.Context {
 }
 
 func vfNewCache() *hugecache.Cache {
-	cache, err := hugecache.NewWithConfig(context.Background(), bigcache.DefaultConfig(5*time.Minute))
+	// Same semantics as the server's cache (bigcache default config, 5 min life window) but with a small
+	// initial allocation and no janitor goroutine: the default config pre-allocates ~300 MB per cache and its
+	// clean-up goroutine keeps the cache reachable for ever, which made a run that creates hundreds of caches
+	// (one per loaded epoch set) grow to tens of GB.
+	conf := bigcache.DefaultConfig(5 * time.Minute)
+	conf.Shards = 64
+	conf.MaxEntriesInWindow = 64 * 64
+	conf.MaxEntrySize = 512
+	conf.CleanWindow = 0
+	conf.Verbose = false
+	cache, err := hugecache.NewWithConfig(context.Background(), conf)
 	if err != nil {
 		panic(err)
 	}
